@@ -214,8 +214,8 @@ def build(template_path, repo, variant="strict", inline=None):
             elif d2.startswith("r13 "):
                 opts.setdefault("r13", []).append(int(d2.split()[1]))
             elif d2.startswith("cut "):
-                mm = re.match(r"cut\s+(\S+)\s+`(.*)`\s*$", d2)
-                opts.setdefault("cuts", []).append((mm.group(1), mm.group(2)))
+                mm = re.match(r"cut\s+(\S+)\s+`(.*)`\s*(\?)?\s*$", d2)
+                opts.setdefault("cuts", []).append((mm.group(1), mm.group(2), bool(mm.group(3))))
             elif d2.startswith("sig "):
                 opts["sig"] = d2[len("sig "):].strip()
             elif d2.startswith("tail "):
@@ -305,11 +305,12 @@ def build(template_path, repo, variant="strict", inline=None):
         log = res.rewrites
         toks = list(item.toks)
         toks = _apply_rules(toks, opts["rules"], log, where, item.kind)
-        for (tag, pat) in opts.get("cuts", []):
+        for (tag, pat, optional) in opts.get("cuts", []):
             try:
                 toks = R.cut_statement(toks, pat, tag, log, where)
             except LostAnchor as e:
-                res.lost.append(str(e))
+                if not optional:
+                    res.lost.append(str(e))
         for (tag, pat, repl, cnt) in opts["subs"]:
             try:
                 toks = R.sub_tokens(toks, pat, repl, tag, log, where, cnt)
